@@ -185,7 +185,7 @@ func Check(w *symex.World, plan *Plan, opt Options) int {
 			// a transient write leaves no trace in a sequential native run: confirm it as a data race
 			ck := compact(cd.jr.Job.Case)
 			res, seen := raceChecked[ck]
-			if !seen && len(raceChecked) < 6 {
+			if !seen && len(raceChecked) < 10 {
 				res, _ = RunNativeRace(w, opt, []NativeJob{{ID: "race", Harness: plan.RaceHarness, Case: normCase(cd.jr.Job.Case), Asg: cd.f.Model}})
 				raceChecked[ck] = res
 			}
